@@ -390,6 +390,9 @@ def autodiscover_units():
     return out
 
 
+# checks whose proof units establish the callee contracts applied here (re-verified by this check, see main.dependency_units)
+DEPENDENCIES = ['C04', 'C05', 'C12']
+
 META = {
     "level": "proof",
     "bounds": {"resolution": "1..32 enumerated, value and padding bits symbolic",
